@@ -569,7 +569,7 @@ def run_batch(pid: str, tier: str, verif_seed: int, runs: Optional[int], workers
         "seed": verif_seed,
         "level": prop.LEVEL,
         "coverage": coverage,
-        "assumptions": list(getattr(prop, "ASSUMPTIONS", [])) + notes,
+        "assumptions": list(getattr(prop, "ASSUMPTIONS", [])) + notes + _seam_notes(prop),
         "wall_s": round(wall, 2),
         "violations": len(unknown),
     }
@@ -589,6 +589,17 @@ def run_batch(pid: str, tier: str, verif_seed: int, runs: Optional[int], workers
         exit_code = 2
     print(f"{pid} {tier}: runs={done_runs} decided={evaluations} distinct={len(sigs)} violations={len(unknown)} known={sum(known_hits.values())} wall={wall:.1f}s digest={batch_digest[:12]}", flush=True)
     return exit_code
+
+
+def _seam_notes(prop) -> List[str]:
+    if "tie order" not in json.dumps(getattr(prop, "COMPONENTS", {})):
+        return []
+    from . import seams
+
+    bypass = seams.scan_method_sorts(NUMPOLY_DIR)
+    if bypass:
+        return ["method-form sorts in numpoly that bypass the tie-order stand-in (real platform order there): " + ", ".join(bypass)]
+    return ["static scan: no method-form sort (arr.argsort()/arr.sort()) in numpoly; every unstable sort goes through the tie-order stand-in"]
 
 
 def _compact(plan: dict, limit: int = 6000) -> Any:
